@@ -1,6 +1,7 @@
 package main
 
 import (
+	"go/types"
 	"fmt"
 	"strings"
 
@@ -147,21 +148,54 @@ afterR8:
 		if fn == nil {
 			continue
 		}
+		// the penalty call, or — when the loop lives in a helper that is handed the action as a
+		// function literal — the call of that function parameter, the literal containing it
+		litHasPen := false
+		for _, call := range AllCalls(fn) {
+			for _, a := range call.Common().Args {
+				if mc, ok := a.(*ssa.MakeClosure); ok {
+					if lf, ok := mc.Fn.(*ssa.Function); ok {
+						for _, c2 := range AllCallsDeep(lf) {
+							if strings.HasSuffix(CalleeName(c2.Common()), "."+x.callee) {
+								litHasPen = true
+							}
+						}
+					}
+				}
+			}
+		}
 		isPen := func(in ssa.Instruction) bool {
 			cl, ok := in.(ssa.CallInstruction)
-			return ok && strings.HasSuffix(CalleeName(cl.Common()), "."+x.callee)
+			if !ok {
+				return false
+			}
+			if strings.HasSuffix(CalleeName(cl.Common()), "."+x.callee) {
+				return true
+			}
+			if pv, isParam := cl.Common().Value.(*ssa.Parameter); isParam && litHasPen {
+				_, isFn := pv.Type().Underlying().(*types.Signature)
+				return isFn
+			}
+			return false
 		}
 		n := 0
-		for _, li := range naturalLoops(fn) {
-			// the loop over ConnsToPeer: its header tests an index against len(ConnsToPeer(...))
-			hdr := li.Header
-			for _, sx := range hdr.Succs {
-				if !li.Blocks[sx] {
-					continue
+		cands := []*ssa.Function{fn}
+		for _, call := range AllCalls(fn) {
+			if h := newHelperCallee(call); h != nil {
+				cands = append(cands, h)
+			}
+		}
+		for _, g := range cands {
+			for _, li := range naturalLoops(g) {
+				hdr := li.Header
+				for _, sx := range hdr.Succs {
+					if !li.Blocks[sx] {
+						continue
+					}
+					n++
+					skip := reachesBlockAvoiding(sx, hdr, isPen)
+					c.Require("C18.R14 every-connection-penalised", FuncKey(fn)+": loop over the peer's connections", p.Pos(fn.Pos()), "no iteration gets back to the loop head without having called "+x.callee, !skip, "")
 				}
-				n++
-				skip := reachesBlockAvoiding(sx, hdr, isPen)
-				c.Require("C18.R14 every-connection-penalised", FuncKey(fn)+": loop over the peer's connections", p.Pos(fn.Pos()), "no iteration gets back to the loop head without having called "+x.callee, !skip, "")
 			}
 		}
 		c.MinInstances("C18.R14 every-connection-penalised "+x.callee, n, 1)
